@@ -527,6 +527,7 @@ class Gen:
         ct = b"application/x-www-form-urlencoded"
         fixed = [b"a=b&c&e=f", b"a=b", b"a=b&", b"&a=b", b"a=b&&c=d", b"=v", b"a=", b"a", b"a=b=c", b"a=%41%zz+%4", b"a=1&a=0&B=2&a=3", b"%3d=%26"]
         for k in range(n + len(fixed)):
+            pairs = None
             if k < len(fixed):
                 body = fixed[k]
             elif rng.random() < 0.5:   # well-formed
@@ -543,7 +544,8 @@ class Gen:
             gid = f"form{k}"
             for chs in ([body], [bytes([x]) for x in body], chunk_at(body, cuts_random(rng, cl, 2))):
                 self.rq(rng.choice((0, 0, 2, 3)), the_ct, cl, max(cl, 1 << 20), 1 << 26, 131072, True, 65536, query, chs,
-                        kind="rq-form", malformed=(mal and is_ue), body=body, group=(gid, 0))
+                        kind="rq-form", malformed=(mal and is_ue), body=body, group=(gid, 0),
+                        pairs=(pairs if (is_ue and not mal) else None))
             # limits: size-1, size, size+1
             for lim in (cl - 1, cl, cl + 1):
                 if lim >= 0:
@@ -751,8 +753,15 @@ def main():
                         bad.append((k, "malformed urlencoded body delivered (in part) with status 200 instead of 400"))
                 elif not head.startswith("status 400"):
                     bad.append((k, "malformed urlencoded body: expected 400"))
-            if kind == "rq-form" and not m.get("malformed") and m.get("body") is not None and cases[k].split()[3] != "-":
-                pass
+            if kind == "rq-form" and m.get("pairs") is not None:
+                # urlencoded_request_roundtrip judged on the real code, independently of the model: the body was written by
+                # this script's percent-encoder from `pairs`, so post() must be exactly those pairs (a multimap: ordered by
+                # name, equal names in body order) - whatever bytes the names and values contain ('=' and '&' included)
+                hx0 = lambda b: b.hex() if b else "-"
+                want_post = ";".join(hx0(a) + "=" + hx0(b) for a, b in sorted(m["pairs"], key=lambda kv: kv[0]))
+                pv = head[len("status 200 post "):].split(" files ")[0] if head.startswith("status 200 post ") else None
+                if pv != want_post:
+                    bad.append((k, "urlencoded round trip: post() is `%s`, the pairs that were encoded are `%s`" % (str(pv)[:120], want_post[:120])))
             if kind and kind.startswith("rq") and head.startswith("status 200 post ") and " files " in head:
                 w_ = cs.split(" ", 6)
                 ctl = bytes.fromhex(w_[2]).lower() if w_[2] != "-" else b""
